@@ -88,10 +88,17 @@ def run(ck):
     chains = [g.gen_chain_triple(rng.fork()) for _ in range(500)] if ck.tier == "quick" else g.all_chain_triples(flags=False)
     exprs = corpus + exprs + [("m", ("m", a, b), c) for (a, b, c) in chains] + [("m", a, ("m", b, c)) for (a, b, c) in chains[:len(chains) // 2]]
     ck.coverage["chains_of_three"] = len(chains)
+    # repeated definitions of the field inside ONE literal (combined statically by the AST conversion, not by the
+    # run-time merge) must behave like the merge of the single definitions, in particular in a FURTHER merge
+    pieces = [("m", ("r", a[1] + b[1]), c) for (a, b, c) in chains if a[1] and b[1]]
+    pieces += [("m", c, ("r", a[1] + b[1])) for (a, b, c) in chains[:len(chains) // 2] if a[1] and b[1]]
+    pieces += [("r", a[1] + b[1] + c[1]) for (a, b, c) in chains[:len(chains) // 3] if a[1] and b[1] and c[1]]
+    exprs = exprs + pieces
+    ck.coverage["repeated_definitions_in_one_literal"] = len(pieces)
     impl, mod = m.run_both(ck, exe, exprs)
     ndis = 0
     for e, a, b in zip(exprs, impl, mod):
-        ck.case(key=g.sexp(e), nontrivial=(e[1][0] == "m" or e[2][0] == "m" or (len(e[1][1]) > 0 and len(e[2][1]) > 0)))
+        ck.case(key=g.sexp(e), nontrivial=(e[0] == "r" or e[1][0] == "m" or e[2][0] == "m" or (len(e[1][1]) > 0 and len(e[2][1]) > 0)))
         ck.hist("outcome", m.outcome_class(a))
         if m.crashed(a):
             ck.violation("crash", "interpreter crashed on " + g.nickel(e), {"program": g.program(e), "impl": a})
@@ -108,7 +115,7 @@ def run(ck):
     for e, a in list(zip(exprs, impl))[:4]:
         ck.sample({"merge": g.nickel(e), "result": a})
     ck.coverage["disagreements"] = ndis
-    ck.coverage["rule"] = "binary merges of records over field a (5 priority forms x optional x not_exported x {no contract, Number} x {no value, 1, \"s1\", {b=1}, {b|default=2}} or absent) exhaustively (thorough) or sampled (quick), plus sampled two-field records; non-trivial = both operands define a field"
+    ck.coverage["rule"] = "binary merges of records over field a (5 priority forms x optional x not_exported x {no contract, Number} x {no value, 1, \"s1\", {b=1}, {b|default=2}} or absent) exhaustively (thorough) or sampled (quick), plus sampled two-field records, chains of three definitions of one field in both bracketings, and the same definitions written as repeated definitions inside one literal (then merged further); non-trivial = both operands define a field"
     ck.trusted += ["extraction: ExtrOcamlBasic only", "harness bins nkeval, c06prio"]
 
 
